@@ -157,3 +157,73 @@ func Harness_C06_sharedVariables() {
 	zzsym.Assert(len(f) == 2 && !hasMin && !subHasMin && !hasCount, "the request's variables are not modified by coercing arguments from them")
 	zzsym.Reach("c06.sharedvars")
 }
+
+// Harness_C06_deepSiblings: several sibling fields failing under one parent
+// at response depths 2..8 (the parent's path has 1..7 segments: below
+// objects, list elements and nested lists), resolved concurrently: on every
+// completion order each failure is reported once, at its own path, and no
+// two goroutines touch the same memory unordered.
+func Harness_C06_deepSiblings() {
+	docs := []string{
+		`{ me { a: best { id } b: link { id } c: pet { __typename } } }`,
+		`{ me { friends { a: best { id } b: link { id } c: pet { __typename } } } }`,
+		`{ me { best { friends { a: best { id } b: link { id } } } } }`,
+		`{ me { friends { friends { a: best { id } b: link { id } c: pet { __typename } } } } }`,
+		`{ me { best { friends { friends { a: best { id } b: link { id } } } } } }`,
+	}
+	di := zzsym.Choice("doc", len(docs))
+	doc := mustLoad(docs[di])
+	w := newWorld(0, false)
+	w.gated = true
+	// one element per list: the parent of the failing siblings is users' path of 1, 3, 4, 5, 7 segments
+	parent := []string{"me", "me.friends[0]", "me.best.friends[0]", "me.friends[0].friends[0]", "me.best.friends[0].friends[0]"}[di]
+	switch di {
+	case 1:
+		w.outs["me/User.friends"] = ref.Out{List: users("me.friends[0]")}
+	case 2:
+		w.outs["me.best/User.friends"] = ref.Out{List: users("me.best.friends[0]")}
+	case 3:
+		w.outs["me/User.friends"] = ref.Out{List: users("me.friends[0]")}
+		w.outs["me.friends[0]/User.friends"] = ref.Out{List: users("me.friends[0].friends[0]")}
+	case 4:
+		w.outs["me.best/User.friends"] = ref.Out{List: users("me.best.friends[0]")}
+		w.outs["me.best.friends[0]/User.friends"] = ref.Out{List: users("me.best.friends[0].friends[0]")}
+	}
+	w.outs[parent+"/User.best"] = ref.Out{K: ref.KError}
+	w.outs[parent+"/User.link"] = ref.Out{K: ref.KError}
+	w.outs[parent+"/User.pet"] = ref.Out{K: ref.KError}
+	op := doc.Operations[0]
+	got := runOp(w, doc, op, nil)
+	want := ref.Execute(pSchema, doc, op, nil, w)
+	zzsym.Event("errors", strings.Join(got.errs, " "))
+	zzsym.Assert(got.data == want.Data, "same data on every schedule")
+	zzsym.Assert(len(want.Errors) >= 2 && sameErrors(got.errs, want.Errors), "each failing sibling is reported once at its own path, whatever the depth and the completion order")
+	zzsym.Reach("c06.deep")
+}
+
+// Harness_C06_extensions: concurrently resolved fields and list elements
+// each register a response extension under a key of their own (the first
+// registrations of the response happen side by side): on every completion
+// order all of them are part of the response, and no two goroutines touch
+// the same memory unordered.
+func Harness_C06_extensions() {
+	doc := mustLoad(`{ me { a: best { id } b: link { id } } users { boss { id } } }`)
+	if zzsym.Param("wide", 0) == 1 {
+		doc = mustLoad(`{ me { a: best { id } b: link { id } c: pet { __typename } } users { boss { id } } }`)
+	}
+	w := newWorld(0, false)
+	w.gated = true
+	w.regExtOwn = true
+	w.outs["/Query.users"] = ref.Out{List: users("users[0]", "users[1]")}
+	op := doc.Operations[0]
+	got := runOp(w, doc, op, nil)
+	want := ref.Execute(pSchema, doc, op, nil, w)
+	zzsym.Assert(got.data == want.Data && len(got.errs) == 0, "same data on every schedule")
+	zzsym.Assert(len(got.resps) == 1 && len(w.regKeys) >= 5, "every resolver-backed field registered its extension")
+	for _, k := range w.regKeys {
+		_, ok := got.resps[0].Extensions[k]
+		zzsym.Assert(ok, "an extension registered by a resolver is part of the response, whatever ran beside it")
+	}
+	zzsym.Assert(len(got.resps[0].Extensions) == len(w.regKeys), "and nothing else is")
+	zzsym.Reach("c06.extensions")
+}
